@@ -152,12 +152,30 @@ var reusedEncoder = ttlv.NewTTLVEncoder()
 func wireEncCase(ctx *Ctx, t *tree.Item) {
 	line := "wire.enc " + t.Render()
 	ctx.current = line
-	got, p := guard("MarshalTTLV", func() []byte { return ttlv.MarshalTTLV(toValue(t)) })
+	// the value handed to the encoder: date-times carry the same instants in various time zones (the wire
+	// format holds the instant; the process runs with TZ=UTC more often than not)
+	in := zoned(toValue(t))
+	got, p := guard("MarshalTTLV", func() []byte { return ttlv.MarshalTTLV(in) })
 	impl := "ok " + hexUp(got)
 	if p != "" {
 		impl = "panic " + panicKey(p)
 		ctx.Res.Violate(report.Violation{Property: "C03", Oracle: "encoder-total", Key: "enc:" + impl, Detail: "MarshalTTLV panicked: " + p, Line: line})
 	} else {
+		// the bytes MarshalTTLV returned belong to the caller: a later call into the library (another
+		// MarshalTTLV, of a different value of about the same size) must leave them as they are
+		keep := append([]byte{}, got...)
+		guard("MarshalTTLV (later call)", func() []byte {
+			return ttlv.MarshalTTLV(ttlv.Value{Tag: 0x42000F, Value: ttlv.Struct{{Tag: 0x420008, Value: bytes.Repeat([]byte{0xEE}, min(len(got), 1<<16)+8)}}})
+		})
+		if !bytes.Equal(got, keep) {
+			ctx.Res.Violate(report.Violation{Property: "C03", Oracle: "returned-bytes-stable", Key: "enc:returned-bytes-overwritten", Detail: "the byte slice returned by MarshalTTLV was overwritten by a later MarshalTTLV call: it now reads " + hexUp(got[:min(len(got), 64)]) + "… instead of " + hexUp(keep[:min(len(keep), 64)]) + "…", Line: line})
+			got = keep
+			impl = "ok " + hexUp(got)
+		}
+		// the encoder only reads the value it is handed
+		if after, err := fromValue(in); err != nil || !tree.Equal(after, t) {
+			ctx.Res.Violate(report.Violation{Property: "C01", Oracle: "encoder-input-unmodified", Key: "enc:input-modified", Detail: "MarshalTTLV modified the value it was handed: it now reads " + renderOrErr(after, err), Line: line})
+		}
 		// C03 oracle: the independent strict parser reads back the same tree, and the independent
 		// writer produces the same bytes.
 		back, err := tree.Decode(got)
@@ -167,6 +185,10 @@ func wireEncCase(ctx *Ctx, t *tree.Item) {
 			ctx.Res.Violate(report.Violation{Property: "C03", Oracle: "independent-parse", Key: "enc:value-differs", Detail: "independent parser reads " + back.Render(), Line: line})
 		}
 		// C01 oracle (generic values): the library decodes its own encoding back to the same tree.
+		// … and the decoded value does not share memory with the input buffer (a transport reuses its buffer)
+		if rt := decodeDetached(got); rt != "ok "+t.Render() {
+			ctx.Res.Violate(report.Violation{Property: "C01", Oracle: "decoded-value-detached", Key: "enc:decoded-aliases-input", Detail: "the value decoded by UnmarshalTTLV changes when the input buffer is overwritten afterwards: " + rt[:min(len(rt), 200)], Line: line})
+		}
 		if rt, _ := decodeGeneric(got); rt != "ok "+t.Render() {
 			d := rt
 			if len(d) > 200 {
@@ -233,10 +255,80 @@ func apiEncode(e *ttlv.Encoder, t *tree.Item, mask bool) {
 	case tree.KBytes:
 		e.ByteString(t.Tag, append([]byte{}, t.Data...))
 	case tree.KDate:
-		e.DateTime(t.Tag, time.Unix(t.Int, 0))
+		e.DateTime(t.Tag, inZone(time.Unix(t.Int, 0)))
 	case tree.KInterval:
 		e.Interval(t.Tag, time.Duration(t.Int)*time.Second)
 	}
+}
+
+var wireZones = []*time.Location{time.UTC, time.FixedZone("+0530", 19800), time.Local, time.FixedZone("-0930", -34200), time.FixedZone("+1400", 50400)}
+
+// inZone: the same instant, in a zone chosen by the instant itself.
+func inZone(t time.Time) time.Time {
+	return t.In(wireZones[int(uint64(t.Unix())%uint64(len(wireZones)))])
+}
+
+// zoned rewrites every date-time of a generic value to the same instant in another zone.
+func zoned(v ttlv.Value) ttlv.Value {
+	switch x := v.Value.(type) {
+	case time.Time:
+		v.Value = inZone(x)
+	case ttlv.Struct:
+		for i := range x {
+			x[i] = zoned(x[i])
+		}
+	}
+	return v
+}
+
+func renderOrErr(it *tree.Item, err error) string {
+	if err != nil || it == nil {
+		return fmt.Sprint("unreadable: ", err)
+	}
+	r := it.Render()
+	return r[:min(len(r), 300)]
+}
+
+// decodeDetached decodes a private copy of b, overwrites that copy, and only then renders the decoded value.
+func decodeDetached(b []byte) string {
+	buf := append([]byte{}, b...)
+	type out struct {
+		it  *tree.Item
+		err error
+	}
+	r, p := guard("UnmarshalTTLV", func() out {
+		var v ttlv.Value
+		if err := ttlv.UnmarshalTTLV(buf, &v); err != nil {
+			return out{nil, err}
+		}
+		for i := range buf {
+			buf[i] = 0xA5
+		}
+		it, err := fromValue(v)
+		return out{it, err}
+	})
+	if p != "" {
+		return "panic " + panicKey(p)
+	}
+	if r.err != nil {
+		return "err"
+	}
+	return "ok " + r.it.Render()
+}
+
+// deepChain: a chain of depth nested structures (a few with siblings before and after the nested one) around
+// one leaf: "any nesting depth".
+func deepChain(r *rng.R, depth int) *tree.Item {
+	small := tree.GenOpts{MaxDepth: 1, MaxChildren: 2, MaxData: 9, MaxBigBits: 64}
+	cur := &tree.Item{Kind: tree.KInt, Tag: 0x42000A, Int: int64(depth)}
+	for d := 0; d < depth; d++ {
+		ch := []*tree.Item{cur}
+		if d%97 == 5 {
+			ch = []*tree.Item{tree.Gen(r, small, 1), cur, tree.Gen(r, small, 1)}
+		}
+		cur = &tree.Item{Kind: tree.KStruct, Tag: 0x420009 + d%3, Children: ch}
+	}
+	return cur
 }
 
 func hasKind(t *tree.Item, k tree.Kind) bool {
@@ -542,6 +634,17 @@ func runWire(ctx *Ctx) {
 		t := largeTree(r, sz)
 		wireEncCase(ctx, t)
 		wireDecCase(ctx, t.Encode(), "large")
+	}
+	// deep nesting: structure chains well beyond the depth random trees reach
+	depths := []int{31, 32, 33, 63, 64, 65, 100, 255, 256, 257, 600}
+	if ctx.Thor {
+		depths = append(depths, 1000, 1500)
+	}
+	for _, d := range depths {
+		t := deepChain(r, d)
+		wireEncCase(ctx, t)
+		wireDecCase(ctx, t.Encode(), "deep")
+		ctx.Res.Count("enc.deep")
 	}
 	opts := tree.GenOpts{MaxDepth: 5, MaxChildren: 6, MaxData: 40, MaxBigBits: 200}
 	n := ctx.N(1500, 60000)
